@@ -333,6 +333,23 @@ def corpus():
         out.append(('corpus:' + os.path.basename(f), open(f, encoding='utf-8', newline='').read()))
     return out
 
+def g_groups(rng, n=None):
+    """contact groups of controlled size: any table character as head, a connector, a rail with d drops
+    (the recognisers look at groups of exactly 4 and exactly 8 fragments)"""
+    a, u = keys()
+    out = []
+    for head in a + u:
+        for conn in ('', '>', '-', '<'):
+            for d in range(0, 8):
+                rail = '+'.join(['-'] * (d + 1)) if d else '-'
+                top = head + conn + rail
+                off = len(head + conn) + 1
+                drops = ' ' * off + ' '.join(['|'] * d)
+                out.append(('groups', top + '\n' + drops if d else top))
+    if n is not None and n < len(out):
+        rng.shuffle(out); out = out[:n]
+    return out
+
 def mixed(rng, n):
     """the default mixture"""
     k = max(1, n // 10)
